@@ -17,6 +17,10 @@ ESCAPES = ['"\\x41"', '"\\x4"', '"\\xZZ"', '"\\u263A"', '"\\u26"', '"\\uD800"', 
 def cases(ctx, n):
     rng = ctx.rng; out = []
     texts = list(ESCAPES) + gen.mutated_corpus(rng, n)
+    # plain scalars that look like a number for a long time and then are not one (type regexes must give up without backtracking)
+    for body in ('1' * 45, '4' + '0123456789' * 5, '1_000' * 9, '0x' + 'F' * 40, '0b' + '10' * 25, '0' + '7' * 40, '1' + ':59' * 15, '3.' + '14' * 20, '1e' + '9' * 40, '2001-12-14t21:59:43.' + '1' * 40, '-' * 40, 'y' * 40):
+        for tail in ('A', '-7', '_', ':x', ' #c', '.'):
+            texts.append(rng.choice(['id: ', '- ', '[', '? ']) + body + tail + '\n')
     for e in ESCAPES[:40]:
         for _ in range(2): texts.append(gen.mutate(rng, 'k: ' + e + '\n- ' + e))
     for t in texts:
